@@ -335,9 +335,9 @@ structure SCache where
   pure : Bool := false
   deriving DecidableEq, Repr
 
-/-- `SLE._setup` for solute `j` on an object with history (as of 899e590 + 6d30f81).
-* same key set as stored: the index is re-used and `self._index.index(solute_index)` is checked (ValueError when the
-  solute is not a member — also after a PURE call, whose one-element index need not contain a non-LLE solute);
+/-- `SLE._setup` for solute `j` on an object with history (as of 899e590 + 6d30f81 + f93a1e5).
+* same key set as stored: the index is re-used; a one-element index means pure-solute mode for the current solute (no
+  membership check, f93a1e5), otherwise `self._index.index(solute_index)` is checked (ValueError for a non-member);
 * otherwise the index is rebuilt and stored together with the key set: one LLE chemical → pure-solute mode (no
   membership check), several → pure-solute mode is left and the membership check runs AFTER the store, so the
   cache is updated even when the call raises. -/
@@ -346,7 +346,10 @@ def sleSetupC (c : Cls α) (cache : SCache) (r : Rows α) (j : Nat) : SCache × 
   if isNZ (get mol j) then
     let nz := nzKeys c mol
     if cache.nz = some nz then
-      if j ∈ cache.idx then (cache, .ok ()) else (cache, .error .notIndexed)
+      -- (f93a1e5) the re-use path does what the rebuild path does: a one-element index means pure-solute mode for the
+      -- current solute (no membership check); otherwise `self._index.index(solute_index)` is checked
+      if cache.idx.length = 1 then ({ cache with pure := true }, .ok ())
+      else if j ∈ cache.idx then (cache, .ok ()) else (cache, .error .notIndexed)
     else
       let idx := lleIndex c mol
       if idx.length = 1 then ({ nz := some nz, idx := idx, pure := true }, .ok ())
